@@ -99,6 +99,11 @@ const WHITE_TABLES: [[[i32; 64]; 6]; 3] = [
 
 const BLACK_TABLES: [[[i32; 64]; 6]; 3] = mirror_and_flip_sign(WHITE_TABLES);
 
+#[cfg(inkayaku_verif)]
+pub fn verif_tables() -> ([[[i32; 64]; 6]; 3], [[[i32; 64]; 6]; 3]) {
+    (WHITE_TABLES, BLACK_TABLES)
+}
+
 #[derive(Default)]
 pub struct SimpleHeuristic;
 
